@@ -1296,19 +1296,19 @@ Qed.
 (* ================================================================ statements *)
 (* between statements the VM binds a name only if the reference semantics does *)
 Hypothesis HPall : forall x, P x.
-(* the upper bound of a `from` loop with a named counter x: the VM has bound x already, the reference semantics has not (x is not
-   the name of a captured variable); this is espec_all for the relation that leaves x out (ghost_all below) *)
+(* the upper bound of a `from` loop with a named counter x: the VM has bound x already, the reference semantics has not (the bound does
+   not mention x: x is left out of the captured context CD'); this is espec_all for the relation that leaves x out (ghost_all) *)
 Definition ghost_spec : Prop :=
-  forall x eb, assoc x CD = None -> uname0 x ->
+  forall CD' x eb, assoc x CD' = None -> uname0 x ->
   forall b B d lr k0 fuel kp a g env s,
-    fuel <= FU -> kexpr SF B CD eb = Some KD -> bound2 B env ->
+    fuel <= FU -> kexpr SF B CD' eb = Some KD -> bound2 B env ->
     installed (snd (ec path d lr k0 eb)) ->
     d + length (fst (ec path d lr k0 eb)) <= c0 + length code + 2 ->
     code_at code kp (fst (ec path d lr k0 eb)) -> kp + length (fst (ec path d lr k0 eb)) < length code ->
-    a_ip a = kp -> a_cb a = cb -> a_ops a = [] -> Cl path prog (fun y => y <> x) cb CD base name SF b B env s g ->
+    a_ip a = kp -> a_cb a = cb -> a_ops a = [] -> Cl path prog (fun y => y <> x) cb CD' base name SF b B env s g ->
     match eval fuel env eb s with
     | EVal v s' => exists a' g' b' w, xrun prog name code a g a' g' /\ a_ip a' = kp + length (fst (ec path d lr k0 eb)) /\ a_ops a' = [w] /\
-          bext b b' s g /\ Cl path prog (fun y => y <> x) cb CD base name SF b' B env s' g' /\ vrel b' KD v w /\ rest b d s s' a g a' g'
+          bext b b' s g /\ Cl path prog (fun y => y <> x) cb CD' base name SF b' B env s' g' /\ vrel b' KD v w /\ rest b d s s' a g a' g'
     | ENoVal s' => False
     | EFail f s' => fail_post f (exists e0 g', xfail prog name code a g e0 g' /\ err_rel_s f e0 /\ out g' = rout s')
     | EFuel => True
@@ -3327,7 +3327,9 @@ Proof.
     - exact Hce4.
     - exact Hn4.
  }
-  destruct (orb_prop _ _ HxU) as [Hpure|HxC].
+  assert (Hcases : ok_dexpr B CD eb && negb (mem_str x (used_e eb)) = true \/ negb (mem_str x (map fst CD)) || nm x eb = true).
+  { destruct (orb_prop _ _ HxU) as [H1|H2]; [destruct (orb_prop _ _ H1) as [H3|H4]; [now left|right; now rewrite H4]|right; rewrite H2; apply orb_true_r]. }
+  destruct Hcases as [Hpure|HxC].
   - (* ---- the upper bound is call-free and does not mention x: the reference semantics may declare the counter first *)
     apply andb_true_iff in Hpure as [Hob HxU0]. apply negb_true_iff in HxU0.
     assert (HxnU : ~ In x (used_e eb)) by (intros Hin; apply In_mem_str in Hin; congruence).
@@ -3382,16 +3384,22 @@ Proof.
     + right. auto.
   - (* ---- the upper bound may contain calls: it runs while the VM alone binds x (a name no captured variable has); the reference
           semantics declares the counter afterwards, and the two cells are paired then *)
-    apply negb_true_iff in HxC.
-    assert (HxCD : assoc x CD = None).
-    { destruct (assoc x CD) as [k|] eqn:E; [|reflexivity]. exfalso. apply assoc_in_keys in E. apply In_mem_str in E. congruence. }
-    pose proof (Cl_bind_ghost path prog (fun y => y <> x) P cb CD base name SF b1 B env s1 g1t x (inj va) f1 R HC1t
+    set (CD' := remove_key x CD).
+    assert (HxCD : assoc x CD' = None) by apply assoc_remove_key_same.
+    assert (Ebk' : kexpr SF B CD' eb = Some KD).
+    { destruct (orb_prop _ _ HxC) as [HxC1|HxC2].
+      - apply negb_true_iff in HxC1. unfold CD'. rewrite remove_key_id; [exact Ebk|]. intros Hi. apply In_mem_str in Hi. congruence.
+      - unfold CD'. rewrite kexpr_remove_key; [exact Ebk|exact HxC2]. }
+    assert (HC1t' : Cl path prog P cb CD' base name SF b1 B env s1 g1t).
+    { apply (Cl_cd path prog P cb CD CD' base name SF b1 B env s1 g1t HC1t). intros y k E.
+      exact (cl_cap _ _ _ _ _ _ _ _ _ _ _ _ _ HC1t y k (assoc_remove_key_sub _ _ _ _ E)). }
+    pose proof (Cl_bind_ghost path prog (fun y => y <> x) P cb CD' base name SF b1 B env s1 g1t x (inj va) f1 R HC1t'
                   (fun y Hy => conj (HPall y) Hy) Ef1 HxBn ltac:(rewrite El; exact Hn) (trace g1t)) as HCg2. cbv zeta in HCg2. fold c'x g2 in HCg2.
     assert (Hcx2 : cell_get g2 c'x = Some (inj va)).
     { unfold cell_get, c'x. cbn [g2 cells]. rewrite Nnat.Nat2N.id, nth_error_app2, Nat.sub_diag by lia. reflexivity. }
     assert (Hn2 : forall c k, ~ b1 c c'x k).
     { intros c k Hbc. destruct (heap_valid path prog _ _ _ _ _ _ (cl_heap _ _ _ _ _ _ _ _ _ _ _ _ _ HC1t) Hbc) as [_ Hc']. unfold c'x in Hc'. rewrite Nnat.Nat2N.id in Hc'. lia. }
-    pose proof (Hghost x eb HxCD Hx b1 B c0 lr1 (k0 + length fa) fuel (S k1) a2 g2 env s1 ltac:(lia) Ebk Hb) as Heb. rewrite Ecb in Heb. cbn [fst snd] in Heb. fold lb in Heb.
+    pose proof (Hghost CD' x eb HxCD Hx b1 B c0 lr1 (k0 + length fa) fuel (S k1) a2 g2 env s1 ltac:(lia) Ebk' Hb) as Heb. rewrite Ecb in Heb. cbn [fst snd] in Heb. fold lb in Heb.
     specialize (Heb Hinb ltac:(unfold fin, kd, kj, kst, ks, kb, kw, kc, k3 in *; lia) Hcb2 ltac:(unfold fin, kd, kj, kst, ks, kb, kw, kc, k3 in *; lia)
                     Hip2 ltac:(cbn [a2 set_ip set_ops a_cb]; exact Hcb1) eq_refl HCg2).
     fold k3 in Heb.
@@ -3412,9 +3420,14 @@ Proof.
     assert (ER : R3' = R) by (cbn [g2 frames tl] in T3; exact T3). subst R3'.
     assert (Hax3 : assoc x (vars f3) = Some c'x).
     { pose proof (proj2 (F3 x ltac:(apply own_reg_not_src; exact (proj1 Hx)))) as H. rewrite Ef3 in H. cbn [top_vars g2 frames vars] in H. rewrite H. apply assoc_set_same. }
-    pose proof (Cl_declare_late path prog (fun y => y <> x) P cb CD base name SF b1 b3 B env sb g3 x (RInt i0) c'x sc0 l' f1 f3 R HCg3
+    pose proof (Cl_declare_late path prog (fun y => y <> x) P cb CD' base name SF b1 b3 B env sb g3 x (RInt i0) c'x sc0 l' f1 f3 R HCg3
                   (fun y Hne _ => Hne) ltac:(rewrite <- Ef1; exact (cl_fr _ _ _ _ _ _ _ _ _ _ _ _ _ HC1t)) (proj1 E3) El Ef3 Hx Hax3 Logic.I Hcx3 Hn3
-                  ltac:(rewrite El; exact Hn) HxBn) as HC3. cbv zeta in HC3.
+                  ltac:(rewrite El; exact Hn) HxBn) as HC3'. cbv zeta in HC3'.
+    pose proof (Cl_cd path prog P cb CD' CD base name SF _ _ _ _ _ HC3'
+                  (fun y k E => match cl_cap _ _ _ _ _ _ _ _ _ _ _ _ _ HC1t y k E with
+                                | conj Hy (ex_intro _ c (ex_intro _ c' (conj A1 (conj A2 A3)))) =>
+                                  conj Hy (ex_intro _ c (ex_intro _ c' (conj A1 (conj A2 (or_introl (proj1 E3 _ _ _ A3))))))
+                                end)) as HC3.
     assert (Edec : declare env sb x (RInt i0) = ({| locals := assoc_set x (N.of_nat (length (store sb))) sc0 :: l'; captured := captured env; cur := cur env |},
                                                  {| store := store sb ++ [RInt i0]; rout := rout sb |})) by (unfold declare, alloc; rewrite El; reflexivity).
     rewrite Edec.
@@ -3462,12 +3475,12 @@ End Act.
 End Sim.
 
 (* the hypothesis Hghost of the statement layer: espec_all, for the relation that leaves the counter out *)
-Lemma ghost_all : forall path prog name code cb CD base SF c0, small (c0 + 2 * length code + 8) ->
-  forall FU, (forall fuel', fuel' < FU -> call_sim path prog fuel') -> ghost_spec path prog name code cb CD base SF c0 FU.
+Lemma ghost_all : forall path prog name code cb base SF c0, small (c0 + 2 * length code + 8) ->
+  forall FU, (forall fuel', fuel' < FU -> call_sim path prog fuel') -> ghost_spec path prog name code cb base SF c0 FU.
 Proof.
-  intros path prog name code cb CD base SF c0 Hsm FU Hcall x eb HxCD Hx b B d lr k0 fuel kp a g env s Hfu Hk Hb Hin Hd Hc Hend Hip Hcb Hops HC.
-  assert (HP : forall y, assoc y CD <> None -> y <> x) by (intros y Hy ->; exact (Hy HxCD)).
-  pose proof (espec_all path prog name code cb CD base SF c0 Hsm FU Hcall (fun y => y <> x) HP eb b B d lr k0 fuel kp a g env s KD
+  intros path prog name code cb base SF c0 Hsm FU Hcall CD' x eb HxCD Hx b B d lr k0 fuel kp a g env s Hfu Hk Hb Hin Hd Hc Hend Hip Hcb Hops HC.
+  assert (HP : forall y, assoc y CD' <> None -> y <> x) by (intros y Hy ->; exact (Hy HxCD)).
+  pose proof (espec_all path prog name code cb CD' base SF c0 Hsm FU Hcall (fun y => y <> x) HP eb b B d lr k0 fuel kp a g env s KD
                 Hfu Hk Hb Hin Hd Hc Hend Hip Hcb Hops HC) as H.
   destruct (eval fuel env eb s) as [v s1|s1|f s1|]; cbn [eres_ok] in H.
   - exact H.
